@@ -56,8 +56,8 @@ let run_buffered cap queued ops =
 
 let run_case line =
   match tokens line with
-  | ["U"; _; q; ops] | ["X"; _; q; ops] -> run_unbuffered (q = "q1") (split_on ',' ops)
-  | ["BU"; cap; q; ops] | ["BX"; cap; q; ops] -> run_buffered cap (q = "q1") (split_on ',' ops)
+  | [("U" | "US" | "UT"); _; q; ops] | ["X"; _; q; ops] -> run_unbuffered (q = "q1") (split_on ',' ops)
+  | [("BU" | "BUS" | "BUT"); cap; q; ops] | ["BX"; cap; q; ops] -> run_buffered cap (q = "q1") (split_on ',' ops)
   | ["UA"; n; ops] ->
     (match get_addr (List.init (int_of_string n) (fun i -> n_of_int i)) with
      | None -> "ctor:inv"
